@@ -466,6 +466,11 @@ def rule_abort_batch(P):
                         return r
                     left = o.env.get("#batch")
                     r.inst((extra, persist, blocking, left), {"list_flags": hex(INIT | extra), "persist": bool(persist), "blocking": blocking, "batch_counter_after": left})
+                    ptr_after = o.env.get(keys["ev_pncalls"])
+                    if left == 0 and ptr_after not in (0,):
+                        r.bad("K6:event_del_nolock_:batch-pointer-left-dangling", "%s:%d" % (f.file, f.line), f.name,
+                              "after aborting the running batch ev->ev_pncalls still holds the address of the closure's local counter (%r): the closure returns without clearing it, and the next "
+                              "event_del()/event_free() of this event writes through the dangling pointer into an unrelated stack frame" % (ptr_after,))
                     if left != 0:
                         r.bad("K6:event_del_nolock_:signal-batch-not-aborted", "%s:%d" % (f.file, f.line), f.name,
                               "signal event with list flags %#x%s deleted while its callback batch runs (ncalls 3, 2 invocations left): *ev_pncalls stays %s — the callback runs again after event_del/event_free" % (
